@@ -482,8 +482,7 @@ def rule_foldid(repo: Repo) -> RuleResult:
         head = g.node_of(loop)
         keyp = _table_key(p, folds[0].call)
         dynamic = any("attr:binary_operator" in x for x in keyp)
-        inits = [g.stmt[d] for d in p.rd.defs_reaching(head, acc) if d != g.entry and not any(g.stmt[d] is x for x in ast.walk(loop))]
-        inits = [st for st in inits if isinstance(st, (ast.Assign, ast.AnnAssign)) and st.value is not None]
+        inits = _initial_values(p, g, loop, head, acc)
         if not inits:
             raise AnalysisError(f"{EVAL}: initialisation of the accumulator of the {ctx} evaluation loop not found")
         depends = True
@@ -505,6 +504,34 @@ def rule_foldid(repo: Repo) -> RuleResult:
                            latent=(ctx == "forall" and dead_forall)))
     r.require_sites(2)
     return r
+
+
+def _initial_values(p, g, loop, head: int, acc: str) -> list:
+    """the statements that give the accumulator its value before the first fold: definitions reaching the loop from outside it, followed
+    through plain copies (a helper's parameter bound to the caller's accumulator, the helper's result copied back); what the folds
+    themselves produce (definitions inside the loop, reached again around an enclosing loop) is not an initial value"""
+    inside = {id(x) for x in ast.walk(loop)}
+    out, done = [], set()
+    work = [(acc, head)]
+    while work:
+        nm, at = work.pop()
+        for d in p.rd.defs_reaching(at, nm):
+            if d == g.entry or (nm, d) in done:
+                continue
+            done.add((nm, d))
+            st = g.stmt[d]
+            if id(st) in inside:
+                continue
+            if not (isinstance(st, (ast.Assign, ast.AnnAssign)) and st.value is not None):
+                continue
+            if isinstance(st, ast.Assign) and not (len(st.targets) == 1 and isinstance(st.targets[0], ast.Name)):
+                continue
+            v = st.value
+            if isinstance(v, ast.Name) and [x for x in p.rd.defs_reaching(d, v.id) if x != g.entry]:
+                work.append((v.id, d))
+            else:
+                out.append(st)
+    return out
 
 
 def _safe_trace(p, e):
